@@ -101,12 +101,21 @@ def build(prog, x0=None, via_ctor=False, initialize=True, ns=None, rules=(), mod
     if model_cls is not None:
         m = model_cls(species=decl, reactions=rtuples, parameters=list(params.items()), rules=list(rules),
                       initial_condition_dict=ic, initialize_model=False)
-    elif via_ctor:
+    elif via_ctor and not any(rx.get("rej") for rx in prog["rx"]):
         m = Model(species=decl, reactions=rtuples, parameters=list(params.items()), rules=list(rules),
                   initial_condition_dict=ic, initialize_model=False)
     else:
         m = Model(species=decl, initialize_model=False)
-        for rt in rtuples:
+        for n_rt, rt in enumerate(rtuples):
+            if prog["rx"][n_rt].get("rej"):
+                # CrnGen "rej": an attempt to add a reaction that the model rejects precedes this reaction
+                try:
+                    m.create_reaction([], [decl[0]] if decl else [], "hillpositive", {"k": 1.5, "K": 2.0, "n": 2.0, "s1": "species_the_model_does_not_have"})
+                    raise AssertionError("the reaction on a species the model does not have was accepted")
+                except AssertionError:
+                    raise
+                except Exception:  # noqa
+                    pass
             if len(rt) == 4:
                 m.create_reaction(rt[0], rt[1], rt[2], rt[3])
             else:
